@@ -370,3 +370,21 @@ func init() {
 		},
 	})
 }
+
+var fsUnits = []string{"fasthttp.(*fsHandler).handleRequest", "fasthttp.(*fsHandler).pathToFilePath", "fasthttp.(*fsHandler).openFSFile", "fasthttp.(*fsHandler).compressAndOpenFSFile", "fasthttp.(*fsHandler).openIndexFile", "fasthttp.(*fsHandler).newFSFile", "fasthttp.NewVHostPathRewriter", "fasthttp.NewPathSlashesStripper", "fasthttp.NewPathPrefixStripper", "fasthttp.stripLeadingSlashes", "fasthttp.hasDotDotPathSegment", "fasthttp.normalizePath", "fasthttp.(*URI).parse", "fasthttp.(*FS).initRequestHandler", "fasthttp.(*FS).normalizeRoot", "fasthttp.(*inMemoryCacheManager)", "fasthttp.(*fsFile)", "fasthttp.(*bigFileReader)", "fasthttp.ParseByteRange", "fasthttp.(*RequestCtx).IfModifiedSince"}
+
+const fsAssume = "the real FS request handler is interpreted over an in-memory recording fs.FS (harness/fasthttp/fsfix.go) whose files count Close calls and flag operations after Close; the default OS file system (os.Open/os.Stat/os.Create), symlinks, Windows separators, mime.TypeByExtension and content sniffing results are outside"
+
+func init() {
+	register(&Property{
+		ID:    "C23",
+		Units: fsUnits,
+		Runs: []Run{
+			{Pkg: "fasthttp", Func: "vhC23FSRoot", Quick: map[string]int{"targetLen": 2, "hostLen": 1}, Thorough: map[string]int{"targetLen": 3, "hostLen": 2}, PathCap: 3000000},
+		},
+		Assume: []string{fsAssume,
+			"request target '/' + ≤ targetLen arbitrary bytes through the real URI parser and path normaliser; Root ∈ {r, r/s, empty}; Compress on/off (Accept-Encoding: gzip); no rewriter or NewVHostPathRewriter / NewPathSlashesStripper / NewPathPrefixStripper with count 0..2; host of ≤ hostLen arbitrary bytes for the virtual-host rewriter; every file is absent, so the subject is which names are passed to Open",
+			"obligations: every opened name is the root or lexically below it without a '..' segment; a path containing NUL opens nothing and is answered 400; a rewritten path with a '..' segment opens nothing",
+		},
+	})
+}
